@@ -214,6 +214,48 @@ package types
 //@   requires ps != nil
 //@   ensures r <==> ps.count == ps.total
 
+// ---------------------------------------------------------------- C13: the transaction / receipt root covers every index once
+// DeriveSha feeds a trie hasher with (rlp(i), encoding of element i). The hasher is specified over
+// ghost state: ins[k] is 0 if key k was not inserted since Reset, and e+1 if the value inserted at
+// key k is the encoding of list element e. The root commits to the list only if every index in
+// [0, Len) is inserted exactly once with its own element, and nothing else is.
+//@ ghost field TrieHasher.ins gmap[mathint]mathint
+//@ spec func listLen(l DerivableList) int
+//@ spec func valIdx(c Content) int
+//@ trusted func (l DerivableList) Len() (r int)
+//@   ensures r == listLen(l)
+//@ trusted func (h TrieHasher) Reset()
+//@   modifies h.ins
+//@   ensures forall k mathint :: h.ins[k] == 0
+//@ trusted func (h TrieHasher) Update(key []byte, value []byte)
+//@   modifies h.ins
+//@   ensures h.ins == upd(old(h.ins), rlp.keyIdx(content(key)), valIdx(content(value)) + 1)
+//@ trusted func (h TrieHasher) Hash() (r common.Hash)
+// encodeForDerive returns a private copy of the encoding of element i; it writes only the pooled
+// buffer, whose backing array nothing else can reach (bytes.Buffer encapsulates it).
+//@ trusted func encodeForDerive(list DerivableList, i int, buf *bytes.Buffer) (r []byte)
+//@   modifies *buf
+//@   ensures valIdx(content(r)) == i
+
+//@ func DeriveSha(list DerivableList, hasher TrieHasher) (r common.Hash)
+//@   for C13
+//@   modifies hasher.ins
+//@   atcall TrieHasher.Update requires [insertedOnce] hasher.ins[rlp.keyIdx(content(key))] == 0
+//@   atcall TrieHasher.Update requires [keyIsIndexOfValue] rlp.keyIdx(content(key)) == valIdx(content(value))
+//@   atcall encodeForDerive requires [indexInRange] 0 <= i && i < listLen(list)
+//@   ensures [everyIndexOnce] forall k mathint :: 0 <= k && k < listLen(list) ==> hasher.ins[k] == k + 1
+//@   ensures [nothingElse] forall k mathint :: (k < 0 || k >= listLen(list)) ==> hasher.ins[k] == 0
+//@   loop 1:
+//@     invariant 1 <= i && i <= 128 && (i == 1 || i <= listLen(list))
+//@     invariant [keyBufPrivate] cap(indexBuf) == 0 || !old(allocated(indexBuf))
+//@     invariant forall k mathint :: 1 <= k && k < i ==> hasher.ins[k] == k + 1
+//@     invariant forall k mathint :: (k < 1 || k >= i) ==> hasher.ins[k] == 0
+//@   loop 2:
+//@     invariant 128 <= i
+//@     invariant [keyBufPrivate] cap(indexBuf) == 0 || !old(allocated(indexBuf))
+//@     invariant forall k mathint :: 0 <= k && k < i && k < listLen(list) ==> hasher.ins[k] == k + 1
+//@     invariant forall k mathint :: (k < 0 || k >= i || k >= listLen(list)) ==> hasher.ins[k] == 0
+
 // ---------------------------------------------------------------- C02/C11: commit verification
 
 // Signature verification is a pure predicate of (address, hash bytes, signature bytes).
